@@ -1,5 +1,5 @@
 #!/usr/bin/env python3
-"""Write meta.json for the round-4, -5 and -6 seeded changes from RESULTS.tsv (run after tools/run_seeded.sh)."""
+"""Write meta.json for the round-4 to -7 seeded changes from RESULTS.tsv (run after tools/run_seeded.sh)."""
 import json, os, collections
 V = "/verif/seeded"
 DESC = {
@@ -53,12 +53,49 @@ DESC = {
              "a later run that brings a new column (per-run constants, or an override naming a new argument): rows are appended but the column is silently dropped, outputs no longer match the recorded arguments"),
  "S-C16-6": ("grow() opens the result file in append mode before evaluating ('fail early if it cannot be written')",
              "a job pre-empted (killed) while evaluating, then the work list derived from crop state (single mode / xyzpy-grow re-submitted, or the script regenerated): the empty placeholder counts as a finished batch, it is never grown, reap fails with EOFError"),
+ "S-C01-7": ("combo_runner_core split path: ndarray results are unzipped with np.moveaxis(np.stack(results), -1, 0) - the wrong axis for results with ndim >= 2",
+             "split=True with a function returning a 2-d ndarray: output j holds column j instead of row j of every combination's result"),
+ "S-C04-7": ("Crop.sow_combos records the sorted combos in the settings file but hands the unsorted ones to the Sower",
+             "sow_combos with at least two multi-valued arguments not given in alphabetical order: values permuted over the grid, silently"),
+ "S-C05-7": ("combo_runner_core builds case_values from c.values() instead of c[a] for the first case's argument names",
+             "harvest_cases with dict cases of which a later one lists its keys in another order than the first: the function is called with swapped arguments, the value lands at an unrequested coordinate"),
+ "S-C06-7": ("Crop.save_info sorts combos by argument name before writing the settings file",
+             "sow_cases(..., combos=C) on a farmer crop with C not in alphabetical order and two multi-valued arguments: reaped values attached to wrong labels"),
+ "S-C08-7": ("Crop.choose_batch_settings re-derives batchsize and remainder with divmod(n, num_batches) whenever both are set",
+             "a crop sown with batchsize= (greedy layout b, b, ..., n % b) re-sown with the same arguments: batches are re-cut evenly, kept results no longer match their batches, check_bad deletes good results"),
+ "S-C09-7": ("nan_like_result: single ndarray results get np.full_like(res, nan), which keeps the dtype",
+             "partial reap of a crop whose function returns an integer (or bool) ndarray: missing positions hold -9223372036854775808 / True instead of a null placeholder"),
+ "S-C10-7": ("write_to_disk: os.replace inside the `with open(tmp)` block (rename before flush/close) - the edit of S-C08-5 / S-C11-5b, written against C10",
+             "kill between the rename and the close of the settings file or the last batch file during sowing: a 0-byte file under its final name; every Crop() on the location raises EOFError, the re-sow cannot start"),
+ "S-C11-7": ("grow() 'checkpoints' a long batch: after every 100 results it writes the partial result tuple under the final result name (atomically)",
+             "a batch of more than 100 cases: a waiting reaper / progress query between a checkpoint and the final write uses a complete-looking but short result"),
+ "S-C12-7": ("Harvester.add_ds default policy: a 'disjoint coordinates' fast path (combine_first, no conflict check) guarded by .all() where .any() was meant",
+             "harvester reap over existing data that conflicts on an overlap while the crop also has coordinates the existing data lacks: no MergeError, old values win, the crop is deleted"),
+ "S-C15-7": ("Crop.sow_samples sorts the argument names but not the value tuples",
+             "a sow_samples run whose choices are not listed in alphabetical order: values drawn for one argument are passed and recorded under another"),
+ "S-C16-7": ("gen_cluster_script wraps batch_ids that are neither list nor tuple into a one-element tuple",
+             "explicit batch_ids given as another iterable, e.g. range(2, 4): header range 1-1, the task calls grow(range(2, 4)) and fails, exit status 0"),
 }
 rows = collections.defaultdict(dict)
-for line in open(os.path.join(V, "RESULTS.tsv")):
-    f = line.rstrip("\n").split("\t")
-    if len(f) >= 3 and f[0] in DESC:
-        rows[f[0]][f[1]] = (int(f[2]), f[3] if len(f) > 3 else "")
+own = {}
+for name in ("RESULTS.tsv", "RESULTS_own.tsv"):  # the own-check cells of the final harness win
+    pth = os.path.join(V, name)
+    if not os.path.exists(pth):
+        continue
+    for line in open(pth):
+        f = line.rstrip("\n").split("\t")
+        if len(f) >= 3 and f[2] != "":
+            if f[0] in DESC:
+                rows[f[0]][f[1]] = (int(f[2]), f[3] if len(f) > 3 else "")
+            if name == "RESULTS_own.tsv":
+                own[f[0]] = {"property": f[1], "exit": int(f[2]), "signature": f[3] if len(f) > 3 else ""}
+# rounds 1-3 keep their full-matrix meta.json; record the re-run of their own check
+import glob
+for mp in glob.glob(os.path.join(V, "S-*", "meta.json")):
+    m = json.load(open(mp))
+    if m["id"] not in DESC and m["id"] in own:
+        m["own_check_on_final_harness"] = own[m["id"]]
+        json.dump(m, open(mp, "w"), indent=1)
 extra = {}
 p = os.path.join(V, "RESULTS_round4_extra.json")
 if os.path.exists(p):
@@ -74,6 +111,11 @@ for sid, (change, needs) in DESC.items():
                    "change that leaves the simplest straight-line use correct and breaks the property only under one "
                    "completion order / grow order / session pattern / scheduler behaviour (with a focus area), and a "
                    "scratch worktree of /repo (no access to /verif)") if sid.endswith("-6") else
+                  ("independent sub-agent given only the property text, all ideas used in rounds 1-6 and the instruction "
+                   "'the hard round: the subtlest violation you can construct that is still clearly inside the property' "
+                   "(one data type or shape, a sequence of >= 3 calls, two rarely combined options, an arithmetic "
+                   "relation between sizes, dictionary / listing order, a plausible-looking wrong result), and a "
+                   "scratch worktree of /repo (no access to /verif)") if sid.endswith("-7") else
                   ("independent sub-agent given only the property text, the ideas used in rounds 1-4, a request for a "
                    "change that leaves every sequential fault-free use correct and breaks the property only in one "
                    "crash window / interleaving / I-O error (with a focus area), and a scratch worktree of /repo "
@@ -84,8 +126,9 @@ for sid, (change, needs) in DESC.items():
             "existing_tests_with_change": "tests/test_gen tests/test_manage.py tests/test_utils.py: 1 failed "
                 "(pre-existing TestBenchmarker::test_basic), 241 passed, 12 skipped - identical to the unmodified tree",
             "command": "/verif/scratch/verify_seeded{}.sh; worktree removed afterwards".format(sid.split("-")[2][0])},
-        "checks_run": "tools/run_seeded.sh: git -C /repo apply patch.diff; ./check <every claimed property> quick; "
-                      "git -C /repo checkout -- .   (results in /verif/seeded/RESULTS.tsv)",
+        "checks_run": "tools/final_matrix.sh: the patch applied to a scratch copy of /repo/xyzpy (XSIM_REPO), "
+                      "./check <its own property> quick (seeded/RESULTS_own.tsv); with FULL=1 every claimed check "
+                      "(seeded/RESULTS.tsv)",
         "detected_by": {p_: s for p_, (ec, s) in sorted(rows[sid].items()) if ec == 1},
         "exit_codes": {p_: ec for p_, (ec, s) in sorted(rows[sid].items())},
     }
